@@ -3,7 +3,7 @@ CONSTANTS
   KType <- MCKType
   KAlg <- MCKAlg
   MaxTTL = 1
-  Dev <- AllDevs
+  Dev <- OpenDevs
   KeySeq <- KS_kk
   MaxList = 2
   Ops = {}
